@@ -175,6 +175,27 @@ var c08Rep int
 
 func farOf(vs ...int) int { return vs[c08Rep%len(vs)] }
 
+// c08FarN: the number of distinct "far beyond" probes the row being built has (set by farBits);
+// the far side of such a row is repeated until every probe has been used once.
+var c08FarN int
+
+// farBits: the "far beyond" probes of a field of `bits` bits that the API keeps in a `width`-bit
+// Go type: the largest value of the type and, for every bit position above the field, that bit
+// alone, that bit with a small valid value and that bit with the largest valid value in the low
+// bits - the values which a mask, or a range check made after a narrowing conversion, maps back
+// into range (a symbol of 0x0100, a reference time of 2^31+5).
+func farBits(bits, width uint) int {
+	lim := 1 << bits
+	vs := []int{1<<width - 1}
+	for b := bits; b < width; b++ {
+		vs = append(vs, 1<<b, 1<<b|1, 1<<b|(lim-1))
+	}
+	if len(vs) > c08FarN {
+		c08FarN = len(vs)
+	}
+	return vs[c08Rep%len(vs)]
+}
+
 func pick(side string, below, at, above, far int) int {
 	switch side {
 	case "below":
@@ -236,7 +257,7 @@ func c08Rows() []c08Row {
 		}},
 		{"APP.subtype<=31", true, func(t *rapid.T, s string) m.Packet {
 			p := gen.PacketOf(t, m.KAPP)
-			p.APP.Subtype = uint8(pick(s, 30, 31, 32, 255))
+			p.APP.Subtype = uint8(pick(s, 30, 31, 32, farBits(5, 8)))
 			return p
 		}},
 		{"SDES.text<=255", true, func(t *rapid.T, s string) m.Packet {
@@ -260,7 +281,7 @@ func c08Rows() []c08Row {
 				p.SR.Reports = rblocksN(t, 1)
 			}
 			i := rapid.IntRange(0, len(p.SR.Reports)-1).Draw(t, "blk")
-			far := farOf(1<<25-1, 1<<25, 1<<24+0x1234, math.MaxUint32)
+			far := farBits(24, 32)
 			p.SR.Reports[i].Lost = uint32(pick(s, 1<<24-2, 1<<24-1, 1<<24, far))
 			return p
 		}},
@@ -270,7 +291,7 @@ func c08Rows() []c08Row {
 				p.RR.Reports = rblocksN(t, 1)
 			}
 			i := rapid.IntRange(0, len(p.RR.Reports)-1).Draw(t, "blk")
-			far := farOf(1<<25-1, 1<<25, 1<<24+1, math.MaxUint32)
+			far := farBits(24, 32)
 			p.RR.Reports[i].Lost = uint32(pick(s, 1<<24-2, 1<<24-1, 1<<24, far))
 			return p
 		}},
@@ -341,17 +362,17 @@ func c08Rows() []c08Row {
 		// ---- general clause: every bounded field represents the actual content ----
 		{"SLI.first<2^13", false, func(t *rapid.T, s string) m.Packet {
 			p := sliWithEntry(t)
-			p.SLI.Entries[0].First = uint16(pick(s, 8190, 8191, 8192, 0xFFFF))
+			p.SLI.Entries[0].First = uint16(pick(s, 8190, 8191, 8192, farBits(13, 16)))
 			return p
 		}},
 		{"SLI.number<2^13", false, func(t *rapid.T, s string) m.Packet {
 			p := sliWithEntry(t)
-			p.SLI.Entries[0].Number = uint16(pick(s, 8190, 8191, 8192, 0xFFFF))
+			p.SLI.Entries[0].Number = uint16(pick(s, 8190, 8191, 8192, farBits(13, 16)))
 			return p
 		}},
 		{"SLI.picture<2^6", false, func(t *rapid.T, s string) m.Packet {
 			p := sliWithEntry(t)
-			p.SLI.Entries[0].Picture = uint8(pick(s, 62, 63, 64, 255))
+			p.SLI.Entries[0].Picture = uint8(pick(s, 62, 63, 64, farBits(6, 8)))
 			return p
 		}},
 		{"NACK.pairs", false, func(t *rapid.T, s string) m.Packet {
@@ -374,23 +395,23 @@ func c08Rows() []c08Row {
 		}},
 		{"TWCC.reftime<2^24", false, func(t *rapid.T, s string) m.Packet {
 			p := gen.PacketOf(t, m.KTWCC)
-			p.TWCC.RefTime = uint32(pick(s, 1<<24-2, 1<<24-1, 1<<24, math.MaxUint32))
+			p.TWCC.RefTime = uint32(pick(s, 1<<24-2, 1<<24-1, 1<<24, farBits(24, 32)))
 			return p
 		}},
 		{"TWCC.runlength<2^13", false, func(t *rapid.T, s string) m.Packet {
-			n := pick(s, 8190, 8191, 8192, 65535)
+			n := pick(s, 8190, 8191, 8192, farBits(13, 16))
 			v := &m.TWCC{Sender: 1, Media: 2, StatusCount: uint16(n), Chunks: []m.TWCCChunk{{Symbol: 0, Run: uint16(n)}}}
 			gen.FixTWCCHeader(v, false)
 			return m.Packet{Kind: m.KTWCC, TWCC: v}
 		}},
 		{"TWCC.runsymbol<4", false, func(t *rapid.T, s string) m.Packet {
-			v := &m.TWCC{Sender: 1, Media: 2, StatusCount: 5, Chunks: []m.TWCCChunk{{Symbol: uint16(pick(s, 0, 3, 4, 0xFFFF)), Run: 5}}}
+			v := &m.TWCC{Sender: 1, Media: 2, StatusCount: 5, Chunks: []m.TWCCChunk{{Symbol: uint16(pick(s, 0, 3, 4, farBits(2, 16))), Run: 5}}}
 			gen.FixTWCCHeader(v, false)
 			return m.Packet{Kind: m.KTWCC, TWCC: v}
 		}},
 		{"TWCC.onebitsymbol<2", false, func(t *rapid.T, s string) m.Packet {
 			syms := make([]uint16, 14)
-			syms[3] = uint16(pick(s, 0, 1, 2, 3))
+			syms[3] = uint16(pick(s, 0, 1, 2, farBits(1, 16)))
 			v := &m.TWCC{Sender: 1, Media: 2, StatusCount: 14, Chunks: []m.TWCCChunk{{Vector: true, Symbols: syms}}}
 			if syms[3] == 1 {
 				v.Deltas = []m.TWCCDelta{{Micros: 250}}
@@ -400,7 +421,7 @@ func c08Rows() []c08Row {
 		}},
 		{"TWCC.twobitsymbol<4", false, func(t *rapid.T, s string) m.Packet {
 			syms := make([]uint16, 7)
-			syms[2] = uint16(pick(s, 0, 3, 4, 0xFFFF))
+			syms[2] = uint16(pick(s, 0, 3, 4, farBits(2, 16)))
 			v := &m.TWCC{Sender: 1, Media: 2, StatusCount: 7, Chunks: []m.TWCCChunk{{Vector: true, TwoBit: true, Symbols: syms}}}
 			gen.FixTWCCHeader(v, false)
 			return m.Packet{Kind: m.KTWCC, TWCC: v}
@@ -439,22 +460,22 @@ func c08Rows() []c08Row {
 		}},
 		{"CCFB.ato<2^13", false, func(t *rapid.T, s string) m.Packet {
 			p := ccfbTwoMetrics(t)
-			p.CCFB.Blocks[0].Metrics[0] = m.CCFBMetric{Received: true, ECN: 1, ATO: uint16(pick(s, 8190, 8191, 8192, 0xFFFF))}
+			p.CCFB.Blocks[0].Metrics[0] = m.CCFBMetric{Received: true, ECN: 1, ATO: uint16(pick(s, 8190, 8191, 8192, farBits(13, 16)))}
 			return p
 		}},
 		{"CCFB.ecn<4", false, func(t *rapid.T, s string) m.Packet {
 			p := ccfbTwoMetrics(t)
-			p.CCFB.Blocks[0].Metrics[0] = m.CCFBMetric{Received: true, ECN: uint8(pick(s, 2, 3, 4, 255)), ATO: 77}
+			p.CCFB.Blocks[0].Metrics[0] = m.CCFBMetric{Received: true, ECN: uint8(pick(s, 2, 3, 4, farBits(2, 8))), ATO: 77}
 			return p
 		}},
 		{"XR.T<16", false, func(t *rapid.T, s string) m.Packet {
 			b := gen.XRBlock(t, rapid.SampledFrom([]int{m.XRLossRLE, m.XRDupRLE, m.XRPRT}).Draw(t, "bt"))
-			b.T = uint8(pick(s, 14, 15, 16, 255))
+			b.T = uint8(pick(s, 14, 15, 16, farBits(4, 8)))
 			return m.Packet{Kind: m.KXR, XR: &m.XR{Sender: 9, Blocks: []m.XRBlock{b}}}
 		}},
 		{"XR.ToH<4", false, func(t *rapid.T, s string) m.Packet {
 			b := gen.XRBlock(t, m.XRSS)
-			b.SS.ToH = uint8(pick(s, 2, 3, 4, 255))
+			b.SS.ToH = uint8(pick(s, 2, 3, 4, farBits(2, 8)))
 			return m.Packet{Kind: m.KXR, XR: &m.XR{Sender: 9, Blocks: []m.XRBlock{b}}}
 		}},
 		{"size<=65536words:FIR", false, func(t *rapid.T, s string) m.Packet {
@@ -600,7 +621,8 @@ func TestC08(t *testing.T) {
 		if len(row.Name) > 5 && row.Name[:5] == "size<" || row.Name == "size:APP.data" || row.Name == "CCFB.metrics<=16384" {
 			reps = 1 + per/12 // the slow rows
 		}
-		for k := 0; k < reps; k++ {
+		c08FarN = 0
+		for k := 0; k < reps || (side == "far" && k < c08FarN); k++ {
 			c08Rep = k
 			g := rapid.Custom(func(rt *rapid.T) m.Packet {
 				_ = rapid.Bool().Draw(rt, "_")
